@@ -166,3 +166,123 @@ def _g_cb_check(tier, rnd):
     for m, k, rec in cbloom_states(tier, rnd):
         for h in hash_lists(m, k, rnd, 3):
             yield {"self": rec, "args": {"hashes": h}}
+
+
+@gen("CountingBloomFilter.remove_alt")
+def _g_cb_remove(tier, rnd):
+    for m, k, rec in cbloom_states(tier, rnd):
+        for h in hash_lists(m, k, rnd, 3):
+            for n in (1, 2, 5, 2**32, 2**64):
+                yield {"self": rec, "args": {"hashes": h, "num_els": n}}
+
+
+NATURAL_GEOMETRIES = [(1, 0.5), (2, 0.3), (3, 0.2), (10, 0.05)]     # (est, fpr) -> (m, k) = (2,1), (6,2), (11,3), (63,4)
+
+
+def natural(cls, est, fpr, cells=None, added=0):
+    rec = {"__recipe__": cls, "args": {"est_elements": est, "false_positive_rate": fpr}, "set": {"_els_added": added}}
+    if cells is not None:
+        rec["set"]["_bloom"] = cells
+    return rec
+
+
+def natural_m(est, fpr):
+    import math
+    import struct
+    p = struct.unpack("f", struct.pack("f", fpr))[0]
+    return math.ceil((-est * math.log(p)) / 0.4804530139182)
+
+
+@gen("CountingBloomFilter.union", "CountingBloomFilter.intersection", "CountingBloomFilter.jaccard_index")
+def _g_cb_setop(tier, rnd):
+    MAX = 2**32 - 1
+    cls = "probables.blooms.countingbloom.CountingBloomFilter"
+    for est, fpr in NATURAL_GEOMETRIES[:3]:
+        m = natural_m(est, fpr)
+        pats = [[0] * m, [1] * m, [MAX] * m, [MAX - 1] * m, [2**31] * m,
+                [rnd.choice([0, 1, 2, MAX - 1, MAX, 2**31]) for _ in range(m)],
+                [rnd.randrange(0, 9) for _ in range(m)]]
+        recs = [natural(cls, est, fpr, p, a) for p in pats for a in (0, 5)]
+        for a in recs:
+            for b in recs:
+                yield {"self": a, "args": {"second": b}}
+        yield {"self": recs[0], "args": {"second": "not a filter"}}
+        yield {"self": recs[0], "args": {"second": natural(cls, est + 1, fpr)}}
+
+
+# ---- plain Bloom filters ---------------------------------------------------------------------------
+BF = "probables.blooms.bloom.BloomFilter"
+
+
+def bloom_states(tier, rnd):
+    ms = [1, 2, 7, 8, 9, 15, 16, 17] if tier == "quick" else list(range(1, 26))
+    for m in ms:
+        nb = -(-m // 8)
+        for k in (1, 2, 3):
+            pats = [[0] * nb, [255] * nb, [rnd.randrange(256) for _ in range(nb)], [0x55] * nb]
+            for cells in pats:
+                yield m, k, _geom(BF, m, k, cells, rnd.choice([0, 3, 99, 100]))
+
+
+@gen("BloomFilter.add_alt", "BloomFilter.check_alt")
+def _g_bf_hashes(tier, rnd):
+    for m, k, rec in bloom_states(tier, rnd):
+        for h in hash_lists(m, k, rnd, 4):
+            yield {"self": rec, "args": {"hashes": h}}
+
+
+@gen("BloomFilter.clear", "BloomFilter._cnt_number_bits_set", "BloomFilter.estimate_elements",
+     "BloomFilter.current_false_positive_rate")
+def _g_bf_noargs(tier, rnd):
+    for m, k, rec in bloom_states(tier, rnd):
+        yield {"self": rec, "args": {}}
+
+
+@gen("BloomFilter._get_element")
+def _g_bf_getel(tier, rnd):
+    for m, k, rec in bloom_states(tier, rnd):
+        for i in range(-(-m // 8)):
+            yield {"self": rec, "args": {"idx": i}}
+
+
+@gen("BloomFilter.add", "BloomFilter.check", "BloomFilter.__contains__")
+def _g_bf_keys(tier, rnd):
+    for m, k, rec in bloom_states(tier, rnd):
+        for key in ("a", "test", b"a", "this is a test", "é"):
+            yield {"self": rec, "args": {"key": key if isinstance(key, str) else {"__bytes__": key.hex()}}}
+
+
+@gen("BloomFilter.union", "BloomFilter.intersection", "BloomFilter.jaccard_index")
+def _g_bf_setop(tier, rnd):
+    for est, fpr in NATURAL_GEOMETRIES:
+        m = natural_m(est, fpr)
+        nb = -(-m // 8)
+        pats = [[0] * nb, [255] * nb, [rnd.randrange(256) for _ in range(nb)], [rnd.randrange(256) for _ in range(nb)]]
+        recs = [natural(BF, est, fpr, p, a) for p in pats for a in (0, 5)]
+        for a in recs:
+            for b in recs:
+                yield {"self": a, "args": {"second": b}}
+        yield {"self": recs[0], "args": {"second": "not a filter"}}
+        yield {"self": recs[0], "args": {"second": natural(BF, est + 1, fpr)}}
+        yield {"self": recs[0], "args": {"second": natural("probables.blooms.countingbloom.CountingBloomFilter", est, fpr)}}
+
+
+@gen("BloomFilter._get_optimized_params")
+def _g_bf_sizing(tier, rnd):
+    for n in (-1, 0, 1, 2, 3, 10, 100, 1000, 10**6):
+        for p in (-0.1, 0.001, 0.05, 0.3, 0.5, 0.9, 0.99, 0.999999999, 1.0, 1.5):
+            yield {"self": None, "args": {"cls": None, "estimated_elements": n, "false_positive_rate": p}}
+
+
+@gen("CountingBloomFilter.add", "CountingBloomFilter.check")
+def _g_cb_keys(tier, rnd):
+    for m, k, rec in cbloom_states(tier, rnd):
+        for key in ("a", "test", b"a"):
+            args = {"key": key if isinstance(key, str) else {"__bytes__": key.hex()}}
+            yield {"self": rec, "args": dict(args, num_els=3)}
+
+
+@gen("CountingBloomFilter._cnt_number_bits_set", "CountingBloomFilter.estimate_elements")
+def _g_cb_noargs(tier, rnd):
+    for m, k, rec in cbloom_states(tier, rnd):
+        yield {"self": rec, "args": {}}
